@@ -67,7 +67,7 @@ META = {
         "and code but a failure of only these clauses is reported in the evidence, not as a property violation."),
 }
 COQ_TARGETS = ["C01/Enc.vo", "C01/ProofsWfb.vo", "C01/ProofsOperands.vo", "C01/ProofsRauw.vo", "C01/ProofsSetOperands.vo", "C01/ProofsSetSuccessors.vo", "C01/ProofsOps.vo", "C01/ProofsBlocks.vo",
-               "C01/ProofsOpRegions.vo", "C01/ProofsMove.vo", "C01/ProofsOpLists.vo", "C01/ProofsBlockLists.vo", "C01/ProofsArgs.vo", "C01/ProofsHistory.vo",
+               "C01/ProofsOpRegions.vo", "C01/ProofsMove.vo", "C01/ProofsOpLists.vo", "C01/ProofsBlockLists.vo", "C01/ProofsArgs.vo", "C01/ProofsCreate.vo", "C01/ProofsInv.vo", "C01/ProofsHistory.vo",
                "C01/ProofsDemo.vo", "Props/C01.vo"]
 REQ = ["C01.Model", "C01.Spec", "C01.Enc"]
 ASSUMPTIONS = [
